@@ -328,7 +328,9 @@ var c20Keys = []string{
 	"{method}", "{scheme}", "{host}", "{hostonly}", "{path}", "{path_escaped}", "{request_id}", "{rewrite_path}",
 	"{rewrite_path_escaped}", "{query}", "{query_escaped}", "{fragment}", "{proto}", "{remote}", "{port}", "{uri}",
 	"{uri_escaped}", "{rewrite_uri}", "{rewrite_uri_escaped}", "{file}", "{dir}", "{mitm}", "{status}", "{size}", "{server_port}",
-	"{tls_client_serial}", "{tls_client_s_dn}",
+	"{tls_client_serial}", "{tls_client_s_dn}", "{tls_client_fingerprint}", "{tls_client_v_remain}",
+	// conditional keys, only generated where their condition is false (see c20Case)
+	"{latency}", "{latency_ms}", "{tls_protocol}", "{tls_cipher}",
 	// sigils
 	"{>X-Inj}", "{>x-inj}", "{>Missing}", "{>}", "{>Cookie}", "{>X-Multi}", "{>Referer}", "{>User-Agent}",
 	"{<Content-Type}", "{<x-resp}", "{<X-Inj}", "{<}", "{<Nope}",
@@ -345,6 +347,12 @@ var c20Keys = []string{
 }
 
 func c20Case(g *hx.Gen, format, empty string, r c20Req) {
+	// a duration / a TLS name is outside the model: keep those keys to requests where the code
+	// answers with the empty value instead (no recorder, no TLS)
+	if (r.recorder != "-" && strings.Contains(format, "{latency")) ||
+		(r.tls && (strings.Contains(format, "{tls_protocol}") || strings.Contains(format, "{tls_cipher}"))) {
+		return
+	}
 	_, views, err := c20Request(r.raw, r.remote, r.rewrite, r.tls, r.reqid, r.mitm)
 	if err != nil {
 		return
